@@ -3,7 +3,7 @@ import random
 from . import core
 from .common import diff_streams, parse_kv
 
-LEVEL = "exploration"
+LEVEL = "proof"
 
 
 def normal_progs(tier, seed):
